@@ -72,6 +72,12 @@ Definition inc_register : M unit :=
   upd_frames (fun fs => map (set_reg (head_reg fs + 1)) fs).
 Definition get_reg : M N := gets head_reg.
 
+(** The two idioms in which the code increments the counter: allocate a register for the
+    instruction that defines it, or increment alone.  The model is written with these. *)
+Definition alloc_emit (mk : N -> instr) : M N :=
+  inc_register ;;; r <- get_reg ;; upd_frames (map (push_ctx (mk r))) ;;; ret r.
+Definition bump : M N := inc_register ;;; get_reg.
+
 (** Every instruction push is recorded locally and forwarded to all ancestors. *)
 Definition emit (i : instr) : M unit := upd_frames (map (push_ctx i)).
 Definition set_inner_name (n : string) : M unit := upd_frames (map (add_inner n)).
@@ -250,9 +256,7 @@ Section WithGlobals.
           match ps with
           | None => ret None
           | Some params =>
-              inc_register ;;;
-              r <- get_reg ;;
-              emit (ICall fd params r) ;;;
+              alloc_emit (ICall fd params) ;;;
               ret (Some (f_ty fd))
           end
       end.
@@ -260,15 +264,16 @@ Section WithGlobals.
     Definition expr_value (v : expr_val) : M (option eres) :=
       match v with
       | EVName x =>
+          (* the code increments the register first and then looks at what it found *)
           vs <- lookup_value (iname x) ;;
-          inc_register ;;;
-          r <- get_reg ;;
           match vs with
-          | Some val => emit (IExprValue val r) ;;; ret (Some (ERes (v_ty val) (RReg r)))
+          | Some val => r <- alloc_emit (IExprValue val) ;; ret (Some (ERes (v_ty val) (RReg r)))
           | None =>
               match alookup (iname x) (g_consts G) with
-              | Some c => emit (IExprConst c r) ;;; ret (Some (ERes (c_ty c) (RReg r)))
-              | None => add_error (Err EValueNotFound (Some (iname x)) (iloc x)) ;;; ret None
+              | Some c => r <- alloc_emit (IExprConst c) ;; ret (Some (ERes (c_ty c) (RReg r)))
+              | None =>
+                  bump ;;;
+                  add_error (Err EValueNotFound (Some (iname x)) (iloc x)) ;;; ret None
               end
           end
       | EVPrim p => ret (Some (ERes (SPrim (pv_ty p)) (RPrim p)))
@@ -278,8 +283,7 @@ Section WithGlobals.
           | None => ret None
           | Some ty =>
               (* the call wrote register n; the operand names n + 1 (finding F7) *)
-              inc_register ;;;
-              r <- get_reg ;;
+              r <- bump ;;
               ret (Some (ERes ty (RReg r)))
           end
       | EVField x a =>
@@ -304,12 +308,9 @@ Section WithGlobals.
                               add_error (Err EValueNotStructField (Some (iname x)) (iloc x)) ;;;
                               ret None
                           | Some (idx, aty) =>
-                              inc_register ;;;
-                              r <- get_reg ;;
-                              emit (IExprStruct val idx r) ;;;
+                              alloc_emit (IExprStruct val idx) ;;;
                               (* finding F7 again: the operand names the register after *)
-                              inc_register ;;;
-                              r' <- get_reg ;;
+                              r' <- bump ;;
                               ret (Some (ERes aty (RReg r')))
                           end
                     end
@@ -319,9 +320,7 @@ Section WithGlobals.
       | EVSub e => E e
       | EVExt t tag =>
           (* the fixed harness extension of DESIGN.md §4.5 *)
-          inc_register ;;;
-          r <- get_reg ;;
-          emit (IExt tag r) ;;;
+          r <- alloc_emit (IExt tag) ;;
           ret (Some (ERes (sem_of_ty t) (RReg r)))
       end.
 
@@ -338,9 +337,7 @@ Section WithGlobals.
               then add_error (Err EWrongExpressionType (Some (type_name (r_ty left))) loc10) ;;;
                    ret None
               else
-                inc_register ;;;
-                r <- get_reg ;;
-                emit (IExprOp op left rgt r) ;;;
+                r <- alloc_emit (IExprOp op left rgt) ;;
                 expr_chain (ERes (r_ty rgt) (RReg r)) rest'
           end
       end.
@@ -424,16 +421,12 @@ Section WithGlobals.
               then add_error (Err EConditionExpressionNotSupported (Some (type_name (r_ty lr)))
                                   loc10) ;;; get_reg
               else
-                inc_register ;;;
-                reg <- get_reg ;;
-                emit (ICondExpr lr rr cmp reg) ;;;
+                alloc_emit (ICondExpr lr rr cmp) ;;;
                 match next with
                 | Some (op, c') =>
                     lreg <- get_reg ;;
                     rreg <- condition_expression c' ;;
-                    inc_register ;;;
-                    reg' <- get_reg ;;
-                    emit (ILogic op lreg rreg reg')
+                    alloc_emit (ILogic op lreg rreg) ;;; ret tt
                 | None => ret tt
                 end ;;;
                 get_reg
